@@ -222,7 +222,9 @@ func gen(g *hx.Gen) {
 		"localhost:80", "", "[fe80::1%eth0]:80", "1.2.3.4:5:6", "0.0.0.0:1", "[::]:1", "128.0.0.1:1", "[::ffff:7f00:1]:2"}
 	wls := [][]string{nil, {"0.0.0.0"}, {"10.0.0.7"}, {"10.0.0.8"}, {"10.0.0.07"}, {"2001:db8::1"}, {"2001:0db8::1"},
 		{"::ffff:10.0.0.7"}, {"127.0.0.1"}, {" 10.0.0.7"}, {"10.0.0.8", "10.0.0.7"}, {"10.0.0.8", "0.0.0.0"}, {""}, {"::"}, {"128.0.0.1", "::1"}}
-	creds := [][2]string{{"", ""}, {"u", "p"}, {"user", "pass:word"}, {"", "x"}, {"x", ""}, {"üser", "pä55"}}
+	// empty/empty = auth off; equal non-empty user and password (a common set-up) must still authenticate;
+	// one side empty; a colon inside; non-ASCII
+	creds := [][2]string{{"", ""}, {"u", "p"}, {"admin", "admin"}, {"user", "pass:word"}, {"", "x"}, {"x", ""}, {"a", "a"}, {"üser", "pä55"}, {":", ":"}}
 	mkAuth := func(u, p string) [][]string {
 		exact := "Basic " + base64.StdEncoding.EncodeToString([]byte(u+":"+p))
 		return [][]string{nil, {exact}, {exact + " "}, {"basic " + exact[6:]}, {"Basic " + base64.StdEncoding.EncodeToString([]byte(u+":"+p+"x"))},
@@ -245,7 +247,7 @@ func gen(g *hx.Gen) {
 		for _, remote := range []string{"127.0.0.1:1", "10.0.0.7:5", "10.0.0.9:5"} {
 			for _, method := range []string{"POST", "GET", "PUT", "OPTIONS"} {
 				for _, ctype := range []string{"application/json", "text/plain", "application/json; charset=utf-8", "text/html", "", "APPLICATION/JSON", "application/json;;", "text/plain; x"} {
-					for _, c := range creds[:3] {
+					for _, c := range creds[:4] {
 						for _, a := range mkAuth(c[0], c[1])[:3] {
 							emit(srv, remote, []string{"10.0.0.7"}, c, a, method, ctype)
 						}
